@@ -594,4 +594,67 @@ theorem File_DropRequire_sim {h : Heap} {fp : Int} {e : EFile} (R : RepF h fp e)
     refine ⟨h', by simp [h1, pure, Except.pure], o, by rw [hm]; exact ho, ?_⟩
     simpa [dropReqRest] using h2
 
+theorem File_DropExclude_sim {h : Heap} {fp : Int} {e : EFile} (R : RepF h fp e) (path vers : Bytes) (fuel : Nat)
+    (hf : e.f.exclude.length + 1 ≤ fuel) :
+    match Modfile.Edit.dropExclude e path vers with
+    | .ok e' => ∃ h', File_DropExclude fuel fp path vers h = .ok (none, h') ∧ RepF h' fp e'
+    | .error _ => File_DropExclude fuel fp path vers h = .error .panic := by
+  obtain ⟨o, ho, R⟩ := R
+  have hlen := R.exclude.rel.length
+  have := DropExclude_loop_sim fp path vers o o.Exclude e.f.exclude [] [] h e fuel R rfl rfl rfl (by omega)
+  unfold File_DropExclude Modfile.Edit.dropExclude 
+  simp only [ho, bind_ok]
+  simp only [bind, Except.bind]
+  cases hc : clearAll (fun x : Modfile.Exclude => x.mod.path == path && x.mod.version == vers) (·.lineId) Modfile.Edit.clearedExclude e.f.exclude with
+  | error err => rw [hc] at this; simp only [List.length_nil] at this; simp [show ((0 : Nat) : Int) = 0 from rfl] at this; simp [this]
+  | ok v =>
+    obtain ⟨rest, dead⟩ := v
+    rw [hc] at this
+    obtain ⟨h', h1, hm, h2⟩ := this
+    simp only [List.length_nil, show ((0 : Nat) : Int) = 0 from rfl] at h1
+    refine ⟨h', by simp [h1, pure, Except.pure], o, by rw [hm]; exact ho, ?_⟩
+    simpa [dropExclRest] using h2
+
+theorem File_DropReplace_sim {h : Heap} {fp : Int} {e : EFile} (R : RepF h fp e) (path vers : Bytes) (fuel : Nat)
+    (hf : e.f.replace.length + 1 ≤ fuel) :
+    match Modfile.Edit.dropReplace e path vers with
+    | .ok e' => ∃ h', File_DropReplace fuel fp path vers h = .ok (none, h') ∧ RepF h' fp e'
+    | .error _ => File_DropReplace fuel fp path vers h = .error .panic := by
+  obtain ⟨o, ho, R⟩ := R
+  have hlen := R.replace.rel.length
+  have := DropReplace_loop_sim fp path vers o o.Replace e.f.replace [] [] h e fuel R rfl rfl rfl (by omega)
+  unfold File_DropReplace Modfile.Edit.dropReplace Modfile.Edit.dropReplaceCore
+  simp only [ho, bind_ok]
+  simp only [bind, Except.bind]
+  cases hc : clearAll (fun x : Modfile.Replace => x.old.path == path && x.old.version == vers) (·.lineId) Modfile.Edit.clearedReplace e.f.replace with
+  | error err => rw [hc] at this; simp only [List.length_nil] at this; simp [show ((0 : Nat) : Int) = 0 from rfl] at this; simp [this]
+  | ok v =>
+    obtain ⟨rest, dead⟩ := v
+    rw [hc] at this
+    obtain ⟨h', h1, hm, h2⟩ := this
+    simp only [List.length_nil, show ((0 : Nat) : Int) = 0 from rfl] at h1
+    refine ⟨h', by simp [h1, pure, Except.pure], o, by rw [hm]; exact ho, ?_⟩
+    simpa [dropReplRest] using h2
+
+theorem File_DropRetract_sim {h : Heap} {fp : Int} {e : EFile} (R : RepF h fp e) (vi : Modfile.VersionInterval) (fuel : Nat)
+    (hf : e.f.retract.length + 1 ≤ fuel) :
+    match Modfile.Edit.dropRetract e vi with
+    | .ok e' => ∃ h', File_DropRetract fuel fp (viG vi) h = .ok (none, h') ∧ RepF h' fp e'
+    | .error _ => File_DropRetract fuel fp (viG vi) h = .error .panic := by
+  obtain ⟨o, ho, R⟩ := R
+  have hlen := R.retract.rel.length
+  have := DropRetract_loop_sim fp vi o o.Retract e.f.retract [] [] h e fuel R rfl rfl rfl (by omega)
+  unfold File_DropRetract Modfile.Edit.dropRetract
+  simp only [ho, bind_ok]
+  simp only [bind, Except.bind]
+  cases hc : clearAll (fun r : Modfile.Retract => r.interval == vi) (·.lineId) Modfile.Edit.clearedRetract e.f.retract with
+  | error err => rw [hc] at this; simp only [List.length_nil] at this; simp [show ((0 : Nat) : Int) = 0 from rfl] at this; simp [this]
+  | ok v =>
+    obtain ⟨rest, dead⟩ := v
+    rw [hc] at this
+    obtain ⟨h', h1, hm, h2⟩ := this
+    simp only [List.length_nil, show ((0 : Nat) : Int) = 0 from rfl] at h1
+    refine ⟨h', by simp [h1, pure, Except.pure], o, by rw [hm]; exact ho, ?_⟩
+    simpa [dropRetrRest] using h2
+
 end ModVerif.Tie.FnEditReqA
